@@ -25,7 +25,7 @@ fn edit_strategy(depth: u32) -> BoxedStrategy<Edit> {
         1 => (any::<u16>(), any::<u8>()).prop_map(|(n, b)| Edit::Extend(n, b)),
         1 => (any::<u8>(), any::<u32>(), any::<u16>(), any::<u32>()).prop_map(|(from, src, len, dst)| Edit::Splice { from, src, len, dst }),
         3 => (any::<u16>(), 0u8..7).prop_map(|(slot, kind)| Edit::G1 { slot, kind }),
-        4 => (any::<u16>(), 0u8..8).prop_map(|(slot, kind)| Edit::RawG1 { slot, kind }),
+        4 => (any::<u16>(), 0u8..12).prop_map(|(slot, kind)| Edit::RawG1 { slot, kind }),
         2 => (any::<u16>(), 0u8..5).prop_map(|(slot, kind)| Edit::Scalar { slot, kind }),
         2 => (any::<u16>(), 0u8..4).prop_map(|(slot, kind)| Edit::G2 { slot, kind }),
         3 => (any::<u16>(), 0u8..12, proptest::bool::weighted(0.25)).prop_map(|(which, val, lengths)| Edit::MsgInt { which, val, lengths }),
@@ -371,6 +371,6 @@ pub fn sweeps(ctx: &Ctx) {
 }
 
 pub fn describe(ctx: &Ctx) {
-    ctx.rule("inputs: valid encodings of 3 base circuits (prover, verifier, proof, public parameters, compressed circuit) under scripts of 1..3 structure-aware edits {bit flip anywhere; length/size fields set to 0, 1, len, len+-1, 2^32, 2^63, u64::MAX; truncate; extend; splice from another artefact; compressed G1 slot replaced by identity / undecodable x / on-curve non-subgroup point / x >= p / all-ones / infinity flag on a point; raw G1 slot replaced by flag byte 2 or 0xff / flag 1 on a non-identity point / limbs + p / off-curve / non-subgroup / identity; scalar replaced by r, r+1, 2^256-1; for compressed circuits the same edits on the inflated MessagePack payload, re-deflated, and MessagePack-aware edits that re-encode one integer / array-length token (declared counts, indices) as 0, 1, cur+-1, 2*cur, 2^16..2^27, 2^61..2^63 with the rest left well-formed}, in the debug-assertions + overflow-checks build; plus the committed fuzz corpus. Oracle inside the decoder call: no panic, per-thread peak allocation <= 8*len + 1 MiB (compressed: <= 2x a legitimate maximal-capacity compile + 1 MiB), every group element / scalar of an accepted input independently re-validated (canonical, on curve, subgroup, non-identity where required), accepted values used (prove / verify / compile / re-encode) without panicking. non-trivial = accepted input, or single-edit rejected input; distinct by input bytes");
+    ctx.rule("inputs: valid encodings of 3 base circuits (prover, verifier, proof, public parameters, compressed circuit) under scripts of 1..3 structure-aware edits {bit flip anywhere; length/size fields set to 0, 1, len, len+-1, 2^32, 2^63, u64::MAX; truncate; extend; splice from another artefact; compressed G1 slot replaced by identity / undecodable x / on-curve non-subgroup point / x >= p / all-ones / infinity flag on a point; raw G1 slot replaced by flag byte 2 or 0xff / the identity's coordinates under flag byte 2, 3, 0x80, 0xff / flag 1 on a non-identity point / limbs + p / off-curve / non-subgroup / identity; scalar replaced by r, r+1, 2^256-1; for compressed circuits the same edits on the inflated MessagePack payload, re-deflated, and MessagePack-aware edits that re-encode one integer / array-length token (declared counts, indices) as 0, 1, cur+-1, 2*cur, 2^16..2^27, 2^61..2^63 with the rest left well-formed}, in the debug-assertions + overflow-checks build; plus the committed fuzz corpus. Oracle inside the decoder call: no panic, per-thread peak allocation <= 8*len + 1 MiB (compressed: <= 2x a legitimate maximal-capacity compile + 1 MiB), every group element / scalar of an accepted input independently re-validated (canonical, on curve, subgroup, non-identity where required), accepted values used (prove / verify / compile / re-encode) without panicking. non-trivial = accepted input, or single-edit rejected input; distinct by input bytes");
     ctx.assume("libFuzzer campaigns (fuzz/) extend this tier in thorough mode; their crashing inputs are copied into corpus/ and replayed here");
 }
